@@ -914,6 +914,17 @@ def _adapt(it, c, a):
     return PyIter(g())
 
 
+@tmodel('Iterator', 'flatten')
+def _flatten(it, c, a):
+    src = persist(it, a[0])
+
+    def g():
+        for x in _drain_all(it, src):
+            for y in _drain_all(it, _into_iter(it, c, [x])):
+                yield y
+    return PyIter(g())
+
+
 @tmodel('Iterator', 'take')
 def _take_n(it, c, a):
     src = persist(it, a[0]); n = cint(it, a[1])
